@@ -1188,6 +1188,7 @@ func factsC09(r *Repo) []Fact {
 	out = append(out, c09CbFacts(r, compose)...)
 	// ---- nothing a run waits on is process-wide (c09_flight.go) ----
 	out = append(out, c09FlightFacts(r)...)
+	out = append(out, c09ObjectSyncFacts(r)...)
 
 	// ---------- shared writes ----------
 	var writes []c09Write
